@@ -42,6 +42,22 @@ def oracle(cfg, trace, residue):
         elif k == 'disconnect':
             for key in [x for x, v in live.items() if v == op['sid'] and x[1] == op['ns']]:
                 del live[key]
+        if k == 'session_nested':
+            sid = op['sid']
+            where = [x for x, v in live.items() if v == sid and x[1] == op['ns']]
+            if where and not im['exc']:
+                want = dict(store.get(sid, {}) if isinstance(store.get(sid, {}), dict) else {})
+                known_region = hist.get(where[0]) and sid not in store and sid_is_new_on(where[0], sid, trace)
+                want[op['k2']] = op['v2']
+                want[op['k']] = op['v']
+                if known_region:
+                    store[sid] = copy.deepcopy(im['result'])
+                else:
+                    if not C.same(im['result'], want):
+                        fails.append((None, 'nested session() blocks: stored %r, the two blocks wrote %r' % (im['result'], want)))
+                    store[sid] = copy.deepcopy(want)
+                hist[where[0]] = True
+            continue
         if k not in ('get_session', 'save_session', 'session_block'):
             continue
         sid = op['sid']
